@@ -207,14 +207,44 @@ def check(chk, repo, tier):
     MODELLED = set(LISTS) | {"use_top_input"}
     MODE = {"repl_mode", "empty_input_is_zero", "online", "online_output"}
     stray = sorted(Tracked.reads - MODELLED - MODE)
+    # a further attribute is tolerated when it is a *configuration constant*:
+    # Context.__init__ gives it a constant, and nothing but the flag handling
+    # of main.py ever writes it - the law is then decided for the default
+    # configuration (a flag may of course change it on purpose)
+    config = []
     if stray:
-        raise AnalysisError(
-            "get_input consults ctx." + ", ctx.".join(stray) + ", which the "
-            "transition model does not cover (its reachable values per "
-            "state are unknown)")
+        cmod = repo.mod("context")
+        init_consts = set()
+        for n_ in ast.walk(cmod.tree):
+            if isinstance(n_, ast.FunctionDef) and n_.name == "__init__":
+                for a_ in ast.walk(n_):
+                    if isinstance(a_, ast.Assign) and isinstance(
+                            a_.value, ast.Constant):
+                        for t_ in a_.targets:
+                            if isinstance(t_, ast.Attribute) and isinstance(
+                                    t_.value, ast.Name) \
+                                    and t_.value.id == "self":
+                                init_consts.add(t_.attr)
+        for attr in list(stray):
+            written_elsewhere = False
+            for modname in repo.package_modules():
+                if modname.endswith((".main", ".context", ".dictionary")):
+                    continue
+                for n_ in ast.walk(repo.mod(modname).tree):
+                    if isinstance(n_, ast.Attribute) and n_.attr == attr \
+                            and isinstance(n_.ctx, ast.Store):
+                        written_elsewhere = True
+                    if isinstance(n_, ast.Constant) and isinstance(
+                            n_.value, str) and f"ctx.{attr} =" in n_.value:
+                        written_elsewhere = True
+            if attr in init_consts and not written_elsewhere:
+                config.append(attr)
+                stray.remove(attr)
     chk.info("C11.read-transition-value", "helpers.get_input",
              "ctx attributes consulted: " + ", ".join(sorted(Tracked.reads))
-             + "; scope templates push " + str(scope_vectors))
+             + "; scope templates push " + str(scope_vectors)
+             + ("; configuration constants held at their default: "
+                + ", ".join(config) if config else ""))
 
     # ---- pop on a short stack reads the missing items, in order ----------------------
     n_p = 0
